@@ -236,7 +236,7 @@ def run(ctx):
              for s in seeds[: (4 if q else 8)]]
     ctx.run_cases(run_loader, cases, 'loader')
     cases = [{'kind': 'default', 'seed': s, 'n': 60 if q else 200} for s in seeds[: (4 if q else 10)]]
-    ctx.run_cases(run_default, cases, 'default')
+    ctx.run_cases(run_default, cases, 'default', chunksize=1, timeout=120)
     if ctx.cnt.get('not_closed'):
         ctx.exhaustive = False
     ctx.extra['explanation'] = ('states = reachable canonical cache states summed over (seed, high); transitions = '
